@@ -23,6 +23,7 @@ RULE = (
     "states = canonical (occupancy, pending departures relative to t) per period; non-trivial = scenario with >=2 sessions sharing a station back-to-back or an event period"
 )
 ASSUMPTIONS = [
+    "block D: plug-in events one period earlier / later than the EV's nominal arrival (the property ties plug-in to the event, unplug to the departure)",
     "small-scope: <=3 stations, <=4 sessions, arrivals<=3, stays<=4, periods 1/5/7.5 min",
     "reference model: occupant(station,t) = the session with arrival<=t<departure; scheduler alphabets are scripted max-pilot (1- and 3-period schedules), empty script, uncontrolled, FCFS greedy",
     "infeasible scripted schedules legitimately only warn; warnings are not violations",
@@ -98,8 +99,35 @@ def space(tier, seed):
                     for k in ((None, 1, 2, 3) if thorough else (None, 1, 3)):
                         for rc in (([], [1], [0, 6]) if thorough else ([], [0, 6])):
                             items.append({"net": netname, "sessions": ss, "sched": SCHEDS[sk], "sk": sk, "k": k, "period": period, "recompute": rc})
-    # ---- block C: constraint-free network with many simultaneous events ----------
+    # ---- block D: plug-in events whose timestamp differs from the EV's nominal arrival (early / late drivers):
+    # the session is plugged in in the period of its plug-in EVENT and leaves in its departure period
+    for netname, stations in (("N1", ["PS-A", "PS-B"]),):
+        pool = []
+        for st in stations:
+            for a in (1, 2, 3):
+                for sy in (2, 3):
+                    for shift in (-1, 1):
+                        s = sess(st, a, sy)
+                        s["pt"] = a + shift
+                        pool.append(s)
+        for ss in S.session_subsets(pool, 1, 3 if thorough else 2):
+            ivs = {}
+            ok = True
+            for s in ss:
+                for lo, hi in ivs.get(s["st"], []):
+                    if min(s["pt"], s["a"]) < hi and lo < s["d"]:
+                        ok = False
+                ivs.setdefault(s["st"], []).append((min(s["pt"], s["a"]), s["d"]))
+            if not ok:
+                continue
+            for sk, k in (("max1", 1), ("max3", 2), ("unc", 1), ("max1", None)):
+                items.append({"net": netname, "sessions": ss, "sched": SCHEDS[sk], "sk": sk, "k": k, "period": 1})
     return items
+
+
+def plug(s):
+    """period in which the session's plug-in event is due"""
+    return s.get("pt", s["a"])
 
 
 def expected(scn):
@@ -110,7 +138,7 @@ def expected(scn):
     for t in range(L + 1):
         row = {st: None for st in stations}
         for s in ss:
-            if s["a"] <= t < s["d"]:
+            if plug(s) <= t < s["d"]:
                 row[s["st"]] = s["sid"]
         occ.append(row)
     return L, occ
@@ -139,7 +167,7 @@ def check(scn, tr, out):
     # --- event history -------------------------------------------------------
     hist = S.events_key(sim)
     exp_multiset = sorted(
-        [("Plugin", s["a"], s["sid"]) for s in scn["sessions"]]
+        [("Plugin", plug(s), s["sid"]) for s in scn["sessions"]]
         + [("Unplug", s["d"], s["sid"]) for s in scn["sessions"]]
         + [("Recompute", t, None) for t in scn.get("recompute", [])],
         key=lambda x: (x[1], PREC[x[0]], str(x[2])),
@@ -183,7 +211,7 @@ def check(scn, tr, out):
                 continue
             row = cr[ids.index(s["st"])]
             for t in range(min(cr.shape[1], L + 1)):
-                mine = s["a"] <= t < s["d"]
+                mine = plug(s) <= t < s["d"]
                 other = occ[t][s["st"]] not in (None, s["sid"])
                 if mine and not row[t] > 0:
                     out("rates:connected-but-no-current", "session %s connected in period %d but recorded rate is %s" % (s["sid"], t, row[t]), float(row[t]), ">0")
@@ -213,7 +241,7 @@ def run(scn):
     ss = scn["sessions"]
     for p in tr.periods:
         t = p["t"]
-        pend = tuple(sorted((s["st"], s["a"] - t) for s in ss if s["a"] > t)) + tuple(sorted((s["st"], s["d"] - t) for s in ss if s["a"] <= t < s["d"]))
+        pend = tuple(sorted((s["st"], plug(s) - t) for s in ss if plug(s) > t)) + tuple(sorted((s["st"], s["d"] - t) for s in ss if plug(s) <= t < s["d"]))
         acc.state((scn["net"], tuple(sorted((k, v is not None) for k, v in p["occ"].items())), pend, scn["k"], scn["sk"]))
     acc.outcome((tr.sim.iteration, len(tr.sim.event_history), type(tr.error).__name__))
     times = [s["a"] for s in ss] + [s["d"] for s in ss]
